@@ -291,6 +291,49 @@ mk('C05-wheel-keeps-old-on-update', 'cache_impl.go',
 				c.expirationPolicy.Add(n)
 			}
 		}''')
+
+# --- mid-scale mutants: only reachable with maxima >= 16 (hill climber moves entries between the queues) ---
+mk('C05-climber-forgets-protected-weight', 'policy.go',
+'''		} else {
+			p.mainProtectedWeightedSize -= weight
+			p.protected.Delete(candidate)
+		}
+		p.windowWeightedSize += weight''',
+'''		} else {
+			p.protected.Delete(candidate)
+		}
+		p.windowWeightedSize += weight''')
+mk('C05-climber-shrink-keeps-window-weight', 'policy.go',
+'''		quota -= weight
+		p.windowWeightedSize -= uint64(weight)
+		p.window.Delete(candidate)
+		p.probation.PushBack(candidate)
+		candidate.MakeMainProbation()''',
+'''		quota -= weight
+		p.window.Delete(candidate)
+		p.probation.PushBack(candidate)
+		candidate.MakeMainProbation()
+		p.windowWeightedSize -= uint64(quota)''')
+mk('C05-climber-shrink-forgets-queue-type', 'policy.go',
+'''		p.window.Delete(candidate)
+		p.probation.PushBack(candidate)
+		candidate.MakeMainProbation()
+	}
+
+	p.mainProtectedMaximum -= uint64(quota)''',
+'''		p.window.Delete(candidate)
+		p.probation.PushBack(candidate)
+	}
+
+	p.mainProtectedMaximum -= uint64(quota)''')
+mk('C04-climber-grows-window-beyond-quota', 'policy.go',
+'''	p.mainProtectedMaximum += uint64(quota)
+	p.windowMaximum -= uint64(quota)
+	p.adjustment = quota
+}''',
+'''	p.mainProtectedMaximum += uint64(quota)
+	p.adjustment = quota
+}''')
 os.chdir("/")
 shutil.rmtree(D)
 print("not generated:", bad)
